@@ -111,6 +111,14 @@ impl Handler for NoProcessGlobalHandler {
     if id.sym() != "process" {
       return;
     }
+    // `export { x as NAME }`: the alias is a name, not a reference.
+    if let Some(spec) = id.parent().to::<ast_view::ExportNamedSpecifier>() {
+      if let Some(ast_view::ModuleExportName::Ident(exported)) = &spec.exported {
+        if exported.range() == id.range() {
+          return;
+        }
+      }
+    }
     // `<process />` is an intrinsic JSX element name, not a reference.
     if id.sym().starts_with(|c: char| c.is_ascii_lowercase())
       && (id.parent().is::<ast_view::JSXOpeningElement>()
